@@ -215,6 +215,18 @@ def run_case(case, timeout=90):
             return out
         return run_molecule
     hooks = {'polyply.src.random_walk:RandomWalk.run_molecule': wrap_run_molecule} if case['fail'] else {}
+    captured = {}
+
+    def wrap_run_system(real):
+        def run_system(self, molecules):
+            out = real(self, molecules)
+            # residue positions as the building stage leaves them (what backmapping and the next stages receive)
+            captured['centres'] = [[(mol.nodes[n].get('resname'), None if mol.nodes[n].get('position') is None
+                                     else [float(x) for x in mol.nodes[n]['position']]) for n in mol.nodes]
+                                   for mol in self.topology.molecules]
+            return out
+        return run_system
+    hooks['polyply.src.build_system:BuildSystem.run_system'] = wrap_run_system
     kw = {}
     with systems.Workdir() as wd:
         if rows:
@@ -229,6 +241,7 @@ def run_case(case, timeout=90):
         res = systems.run_gen_coords(wd, systems.top_text(case['moltypes'], case['molecules']), seed=case['seed'], timeout=timeout,
                                      maxiter=case.get('maxiter', 200), hooks=hooks, **kw)
     res['attempts'] = seen['attempts']
+    res['centres'] = captured.get('centres')
     return res, rows, plan
 
 
@@ -285,6 +298,21 @@ def judge(case, res, plan):
     rows = res.get('rows')
     if rows is None:
         return ["no output structure"]
+    # supplied residues keep their centre through the building stage (failed attempts included)
+    inst = [name for name, n in case['molecules'] for _ in range(n)]
+    if res.get('centres'):
+        for mi, cents in enumerate(res['centres']):
+            mine = [p for p in plan if p['mol'] == mi]
+            if inst[mi] in case['ignore'] or len(mine) != len(cents) or any(p['atoms'][0][1] != c[0] for p, c in zip(mine, cents)):
+                continue
+            for p, (rn, pos) in zip(mine, cents):
+                if p['kind'] == 'build' or pos is None:
+                    continue
+                want = p['coords'][0] if p['kind'] == 'centre' else [sum(c[d] for c in p['coords']) / len(p['coords']) for d in range(3)]
+                if any(abs(a - b) > 2e-3 for a, b in zip(pos, want)):
+                    bad.append(f"residue {rn}{p['atoms'][0][0]} of molecule {mi}, supplied with centre {[round(x, 3) for x in want]}, leaves the "
+                               f"building stage at {[round(x, 3) for x in pos]} ({res['attempts']} placement attempts)")
+                    return bad
     k = 0
     for p in plan:
         out = rows[k:k + len(p['atoms'])]
@@ -363,6 +391,13 @@ def run(ctx):
     # (ii) end to end
     kinds = ['full', 'partial', 'rebuild', 'centres', 'ignore', 'fail']
     cases = [c for _, c in core.corpus_cases('C04')]
+    # always exercised: one chain whose leading residues (the walk root included) are supplied, the rest built after
+    # one or two abandoned attempts, at both resolutions
+    for resolution in ('mol', 'meta_mol'):
+        for nfail in (1, 2):
+            mt = systems.gen_moltype(rng, 'MA', nres=rng.randint(4, 6), multi_atom=True, shape='path')
+            cases.append({'kind': 'fail', 'moltypes': [mt], 'molecules': [('MA', 1)], 'seed': rng.randrange(10 ** 6), 'L': 6.0, 'skip': [],
+                          'ignore': [], 'fail': {'first_attempts': nfail}, 'resolution': resolution, 'nres_supplied': rng.randint(1, mt['nres'] - 2)})
     for i in range(ctx.n(30, 300)):
         try:
             cases.append(plan_run(rng, kinds[i % len(kinds)]))
